@@ -154,6 +154,9 @@ func cmdCheck(args []string) int {
 			attach = append(attach, fmt.Sprintf("%s#contract.attach: function not found in the tree", name))
 			continue
 		}
+		if v.lib.Contracts[name] == nil {
+			attach = append(attach, fmt.Sprintf("%s#contract.attach: no contract found for a function the property depends on", name))
+		}
 		u := v.verifyFunction(fn)
 		units = append(units, u)
 		underContract = append(underContract, name)
